@@ -77,6 +77,16 @@ def check_fn(chk, cipher, fn, ns, inputs, tabs_idx, tabs, key, exp_key, targets,
     sf = cls()
     arr = np.array(inputs, dtype='uint8')
     full = np.asarray(sf(**{tag: arr}))
+    held = full.copy()           # the caller keeps `full`
+    # the next batch of the same size goes through the same function object and through a sibling function: what was returned for this batch stays what it was
+    other = np.asarray(sf(**{tag: arr ^ 0x5A}))
+    for n in [n for n in (AES_FNS if cipher == 'aes' else DES_FNS) if hasattr(mod, n)][:3]:
+        getattr(mod, n)()(**{('ciphertext' if uses_ct(n) == (ns == 'encrypt') else 'plaintext'): arr ^ 0x33})
+    chk.count((gi, cipher, ns, fn, 'held'), nontrivial=True)
+    if not np.array_equal(full, held):
+        chk.violation(f'{cipher}.{ns}.{fn}:the output of one call is not changed by later calls', {'property': 'C07', 'cipher': cipher, 'namespace': ns, 'function': fn, 'inputs': inputs}, f'{cipher}.{ns}.{fn}: the array returned for one batch was rewritten by a later call')
+    elif other.shape == full.shape and np.array_equal(other, full):
+        chk.violation(f'{cipher}.{ns}.{fn}:every guess column is the documented computation with that guess; shape (traces, guesses, words)', {'property': 'C07', 'cipher': cipher, 'namespace': ns, 'function': fn, 'inputs': inputs, 'note': 'different inputs, same output'}, f'{cipher}.{ns}.{fn}: output does not depend on the input')
     base_fn = fn if ns == 'encrypt' else (AES_MIRROR if cipher == 'aes' else DES_MIRROR)[fn]
     want = np.stack([tabs[(i, base_fn)] for i in tabs_idx])          # (n, guesses, words)
     ctx = {'cipher': cipher, 'namespace': ns, 'function': fn, 'inputs': inputs, 'key': key}
@@ -119,8 +129,9 @@ def check_fn(chk, cipher, fn, ns, inputs, tabs_idx, tabs, key, exp_key, targets,
                     chk.violation(f'{cipher}.{ns}.{fn}:the hypothesis at the expected key word equals the word of the real cipher state', dict(ctx, property='C07', input_index=i, got=col, expected=targets[i]),
                                   f'{cipher}.{ns}.{fn}: true-key column is not the targeted cipher state')
     # words / guesses selections are slices of the full output
-    sels = [('int', 3, 3), ('list', [0, 5, 2], [0, 5, 2]), ('slice', slice(1, 6, 2), slice(1, 6, 2)), ('array', np.array([7, 0]), [7, 0]),
-            ('list-contiguous-unordered', [2, 0, 1], [2, 0, 1]), ('array-descending', np.array([5, 4]), [5, 4]), ('array-all-reversed', np.arange(nwords)[::-1].copy(), list(range(nwords))[::-1])]
+    sels = [('int', 3, 3), ('int-zero', 0, 0), ('list-zero', [0], [0]), ('list', [0, 5, 2], [0, 5, 2]), ('slice', slice(1, 6, 2), slice(1, 6, 2)), ('array', np.array([7, 0]), [7, 0]),
+            ('list-contiguous-unordered', [2, 0, 1], [2, 0, 1]), ('array-descending', np.array([5, 4]), [5, 4]), ('array-all-reversed', np.arange(nwords)[::-1].copy(), list(range(nwords))[::-1]),
+            ('int-negative', -2, -2), ('array-negative', np.array([-1, 3]), [-1, 3]), ('slice-negative', slice(-3, None), slice(-3, None)), ('array-negative-int8', np.array([1, -nwords], dtype='int8'), [1, -nwords])]
     for name, wsel, idx in sels:
         out = np.asarray(cls(words=wsel)(**{tag: arr}))
         ref = full[:, :, idx]
@@ -135,6 +146,8 @@ def check_fn(chk, cipher, fn, ns, inputs, tabs_idx, tabs, key, exp_key, targets,
         chk.count((gi, cipher, ns, fn, 'guesses', name), nontrivial=True)
         if out.shape != ref.shape or not np.array_equal(out, ref):
             chk.violation(f'{cipher}.{ns}.{fn}:a subset / permutation of guesses returns exactly the corresponding columns', dict(ctx, property='C07', guesses=gsel), f'{cipher}.{ns}.{fn}: guesses={gsel}')
+    if arr.tolist() != [list(x) for x in inputs]:
+        chk.violation(f'{cipher}.{ns}.{fn}:the metadata array is left as it was given', dict(ctx, property='C07'), f'{cipher}.{ns}.{fn}: the input array was modified')
     chk.traces_validated += 1
 
 
